@@ -17,6 +17,12 @@ periods scale-invariant (c in {1/2, 2, 7}, separate spectrum objects; c = -1 thr
 __neg__), m_n(E1 +- E2) = m_n(E1) +- m_n(E2) through the real __add__ / __sub__ for every
 unordered pair of words with identical NaN masks, and 1/f_last <= Tm02 <= Tm01 <= 1/f_first
 (in-band nodes) for every member with m0 > 0 (the alphabet is non-negative).
+
+History family (units 'history:*'): ONE spectrum object per history, every sequence of length <= 3
+over {read moments, read Hm0/Tm01/Tm02} U {in-place modifications: multiply(full array, inplace),
+multiply(array, dimensions=[frequency] / [direction], inplace), fillna(value), item assignment of
+variance_density, direct dataset assignment}; after every read (and once more after the last step)
+the values must equal the reference recomputed from the variance density the object holds NOW.
 """
 import itertools
 import math
@@ -35,7 +41,10 @@ RULE = (
     "{-1,0,nodes,mid-points,nextafter(node,+-inf),+inf}. Named restrictions: layout () evaluates one band per distinct "
     "in-band node set on a reduced word set (quick: impulses / pairs / ones-with-one-NaN; thorough: all words for 1d nf<=5, {0,1,NaN}^nf or the sparse set otherwise); the additivity law uses one band per distinct in-band node set; the scaling/negation laws do "
     "too, except in the thorough tier for nf<=5 (1d, 2d:d4), where they run on every band. A case (grid, word, in-band node set, power) is non-trivial when "
-    "the band holds >= 2 nodes and the in-band energy is > 0; distinct cases are counted once (1d, time layout)."
+    "the band holds >= 2 nodes and the in-band energy is > 0; distinct cases are counted once (1d, time layout). "
+    "History family: all operation sequences of length <= 3 (quick: length 3 only for 1d in the (time) layout, else <= 2) "
+    "over 2 reads and 5 (1d) / 6 (2d) in-place mutators on a fresh 6-member object (grid g5z; layout () uses two members), "
+    "bands {default, [f1,f4)}; a history is non-trivial when a read precedes a modification."
 )
 ASSUMPTIONS = [
     "lattice of variance densities {0,1,3,NaN} per bin (plus scalings 1/2, 2, 7, -1 and pairwise sums/differences), not the continuum",
@@ -47,7 +56,8 @@ REQUIRED_CATEGORIES = [
     "empty_band", "single_point_band", "band_edge_on_node", "nan_bin_in_band", "f0_zero_in_band",
     "layout:scalar", "layout:time", "layout:time_lat", "layout:flat", "kind:1d", "kind:2d",
     "period_law_checked", "scaling_pairs", "negation_pairs", "additivity_pairs", "ratio_undefined_trivial",
-    "default_band_properties",
+    "default_band_properties", "history_executed", "history_read_then_mutate", "history_mutation_steps",
+    "history_fillna_filled_bins",
 ]
 
 NAN = float("nan")
@@ -340,6 +350,7 @@ def units(tier):
             for ch in range(nch):
                 us.append({"name": f"{g}:{kind}:scalar:{ch}of{nch}", "grid": g, "kind": kind, "layout": "scalar",
                            "chunk": ch, "nchunks": nch, "cost": round(sec / nch, 1)})
+    us += history_units(tier)
     return us
 
 
@@ -631,5 +642,170 @@ def run_scalar(unit):
     return c.result()
 
 
+# ------------------------------------------------------------------------------------------
+# history family: reads and in-place modifications on ONE object
+# ------------------------------------------------------------------------------------------
+HISTORY_GRID = "g5z"
+HISTORY_READS = ("moments", "bulk")
+HISTORY_MUTATORS = ("mul_full", "mul_frequency", "mul_direction", "fillna", "setitem", "dataset_assign")
+HISTORY_MAXLEN = 3
+HISTORY_WORDS = [
+    (1.0, 3.0, 0.0, 1.0, 0.0), (0.0, None, 3.0, 1.0, 1.0), (3.0, 3.0, None, 0.0, 1.0),
+    (0.0, 0.0, 0.0, 0.0, 0.0), (None, 1.0, 1.0, 3.0, None), (1.0, 0.0, 3.0, 3.0, 1.0),
+]
+HISTORY_SCALAR_MEMBERS = (1, 4)
+
+
+def history_ops(kind):
+    return HISTORY_READS + tuple(m for m in HISTORY_MUTATORS if not (m == "mul_direction" and kind == "1d"))
+
+
+def history_maxlen(tier, kind, layout):
+    """named restriction 'history_length3_quick'."""
+    if tier == "thorough" or (kind == "1d" and layout == "time"):
+        return HISTORY_MAXLEN
+    return 2
+
+
+def histories(kind, maxlen, first=None):
+    ops = history_ops(kind)
+    out = []
+    for length in range(1, maxlen + 1):
+        for h in itertools.product(ops, repeat=length):
+            if first is None or h[0] == first:
+                out.append(list(h))
+    return out
+
+
+def history_units(tier):
+    us = []
+    for kind in ("1d", "2d:d4"):
+        for layout in ("scalar",) + LAYOUTS:
+            ml = history_maxlen(tier, kind, layout)
+            w2 = 2.5 if kind != "1d" else 1.0
+            if ml == HISTORY_MAXLEN:  # sharded by the first operation
+                for op in history_ops(kind):
+                    us.append({"name": f"history:{kind}:{layout}:first={op}", "family": "history", "kind": kind,
+                               "layout": layout, "first": op, "maxlen": ml, "cost": 8 * w2, "grid": HISTORY_GRID})
+            else:
+                us.append({"name": f"history:{kind}:{layout}", "family": "history", "kind": kind, "layout": layout,
+                           "first": None, "maxlen": ml, "cost": 8 * w2, "grid": HISTORY_GRID})
+    return us
+
+
+def ref_e_row(row, widths):
+    """e of one frequency from the directional densities the object holds: sum of E*width, NaN skipped."""
+    tot = 0.0
+    for v, wk in zip(row, widths):
+        if v != v:
+            continue
+        tot += v * wk
+    return tot
+
+
+def run_history(unit):
+    c = Collector()
+    tier, kind, layout = unit["tier"], unit["kind"], unit["layout"]
+    f = grids(tier)[HISTORY_GRID]
+    nf = len(f)
+    agg = Agg(c, {"grid": HISTORY_GRID, "kind": kind, "layout": layout, "family": "history"})
+    W0 = to_array(HISTORY_WORDS)
+    member_sets = [[m] for m in HISTORY_SCALAR_MEMBERS] if layout == "scalar" else [list(range(len(HISTORY_WORDS)))]
+    hs = histories(kind, unit["maxlen"], unit.get("first"))
+    bands = [(0, INF), (f[1], f[4])]
+    widths = None if kind == "1d" else ref_widths(DIRSETS[kind.split(":")[1]]["dirs"])
+    for ms in member_sets:
+        E0 = density(W0, kind)[ms]
+        for hist in hs:
+            try:
+                one_history(c, agg, f, kind, layout, E0, hist, bands, widths)
+            except Exception:
+                agg.add("history raises", len(ms), f"history {hist} raised", history=list(hist),
+                        traceback=traceback.format_exc()[-1500:])
+            c.cat("history_executed")
+            c.cat("history_mutation_steps", sum(1 for op in hist if op in HISTORY_MUTATORS))
+            seen_read = False
+            for op in hist:
+                if op in HISTORY_READS:
+                    seen_read = True
+                elif seen_read:
+                    c.cat("history_read_then_mutate")
+                    if layout == "time":
+                        c.nontriv((kind, "history") + tuple(hist))
+                    break
+    agg.flush()
+    c.case({"family": "history", "kind": kind, "layout": layout, "ops": list(history_ops(kind)), "maxlen": unit["maxlen"],
+            "first": unit.get("first"), "histories": len(hs)})
+    c.sample({"family": "history", "kind": kind, "layout": layout, "operations": list(history_ops(kind)),
+              "max_length": unit["maxlen"], "histories": len(hs), "example": hs[len(hs) // 2],
+              "words": [[str(x) for x in w] for w in HISTORY_WORDS]})
+    return c.result()
+
+
+def one_history(c, agg, f, kind, layout, E0, hist, bands, widths):
+    nm = E0.shape[0]
+    nf = len(f)
+    s = build(f, E0.copy(), kind, layout)
+
+    def current_e():
+        """e(f) (None = missing) of every member from the variance density the object holds NOW."""
+        cur = np.array(s.variance_density.values, dtype=float).reshape((nm,) + E0.shape[1:])
+        if kind == "1d":
+            return [tuple(None if v != v else float(v) for v in row) for row in cur]
+        return [tuple(ref_e_row(cur[m, j], widths) for j in range(nf)) for m in range(nm)]
+
+    def read(step, which):
+        evals = current_e()
+        for band in bands:
+            idx = inband(f, *band)
+            R = build_ref(f, evals, [idx])[idx]
+            refs = ref_quantities(R)
+            if which == "moments":
+                q = [(f"frequency_moment({p})", (lambda p=p: s.frequency_moment(p, *band))) for p in (0, 1, 2)]
+            else:
+                q = [("hm0", lambda: s.hm0(*band)), ("tm01", lambda: s.tm01(*band)), ("tm02", lambda: s.tm02(*band))]
+            for name, fn in q:
+                v = values(c, agg, "history " + name, fn, nm, layout, band)
+                if v is None:
+                    continue
+                ref, where = refs[name]
+                ok = close(v, ref, rtol=RTOL)
+                if where is not None:
+                    ok = ok | ~where
+                c.evaluations += nm
+                if not ok.all():
+                    m = int(np.argmin(ok))
+                    agg.add("history " + name.split("(")[0], int((~ok).sum()),
+                            f"after {hist[:step + 1]} (step {step}): {name} band={list(band)} is {v[m]!r} but the variance density "
+                            f"the object holds now gives {ref[m]!r} (member {m}, e={evals[m]})",
+                            history=list(hist), step=step, band=list(band), lib=float(v[m]), ref=float(ref[m]))
+
+    for step, op in enumerate(hist):
+        if op in HISTORY_READS:
+            read(step, op)
+        elif op == "mul_full":
+            s.multiply(np.full(s.shape(), 3.0), inplace=True)
+        elif op == "mul_frequency":
+            s.multiply(0.5 + np.arange(nf, dtype=float), dimensions=["frequency"], inplace=True)
+        elif op == "mul_direction":
+            nd = E0.shape[-1]
+            s.multiply(np.array([1.0, 2.0, 0.5, 4.0, 1.5, 0.25, 3.0, 1.0])[:nd], dimensions=["direction"], inplace=True)
+        elif op == "fillna":
+            c.cat("history_fillna_filled_bins", int(np.sum(np.isnan(s.variance_density.values))))
+            s.fillna(1.0)
+        elif op == "setitem":
+            da = s.dataset["variance_density"]
+            s["variance_density"] = da.copy(data=2.0 * np.flip(da.values, axis=da.dims.index("frequency")) + 0.25)
+        elif op == "dataset_assign":
+            s.dataset["variance_density"] = 0.5 * s.dataset["variance_density"].roll(frequency=1, roll_coords=False)
+        else:
+            raise AssertionError(op)
+    last = len(hist) - 1
+    read(last, "moments")
+    read(last, "bulk")
+
+
 def run_unit(unit):
+    if unit.get("family") == "history":
+        return run_history(unit)
     return run_scalar(unit) if unit["layout"] == "scalar" else run_batched(unit)
